@@ -28,7 +28,9 @@ EXPLANATION = (
 ASSUMPTIONS = ["the `fips` feature needs a tool chain that is not present in the sandbox and is not in the property's list", "ring and aws-lc-rs compute the same SHA-2 digests and export public keys in the same octet format"]
 
 BACKENDS = [("ring", ["ring"]), ("aws_lc_rs", ["aws_lc_rs"]), ("none", [])]
-QUICK_SETS = [["ring", "pem"], ["ring"], ["aws_lc_rs"], [], ["pem", "x509-parser"], ["ring", "pem", "x509-parser", "zeroize"], ["aws_lc_rs", "pem", "x509-parser", "zeroize"]]
+QUICK_SETS = [["ring", "pem"], ["ring"], ["aws_lc_rs"], [], ["pem", "x509-parser"], ["ring", "pem", "x509-parser", "zeroize"], ["aws_lc_rs", "pem", "x509-parser", "zeroize"],
+              # every optional feature once *without* pem (0.11.3 / 0.12.1 did not build with pem disabled)
+              ["zeroize"], ["ring", "zeroize", "x509-parser"]]
 
 # functions whose bodies legitimately differ between the ring and the aws-lc-rs build (back-end boundary)
 BOUNDARY = {
